@@ -255,6 +255,18 @@ func (e *Exec) CompareState(st *AppState, phase, txKind string, step int) []core
 		}
 	}
 	// queues
+	if st.AwardsOpaque || st.BurnsOpaque {
+		// queue values in a form this harness does not know: the amounts are checked when they are minted / burned
+		// (balances, supply), the number of entries still is
+		e.res.Stats.Probe("queue_values_opaque")
+		if st.AwardsOpaque && st.AwardCount != len(m.Awards) {
+			add("C10", "award-queue-vs-model", map[string]string{"what": "size"}, "award queue has %d entries, model %d", st.AwardCount, len(m.Awards))
+		}
+		if st.BurnsOpaque && st.BurnCount != len(m.Burns) {
+			add("C07", "burn-queue-vs-model", map[string]string{"what": "size"}, "burn queue has %d entries, model %d", st.BurnCount, len(m.Burns))
+		}
+		return out
+	}
 	awardBad := len(st.Awards) != len(m.Awards)
 	for _, a := range sortedInts(m.Awards) {
 		amt := m.Awards[a]
